@@ -89,7 +89,7 @@ func (S) Info() scen.Info {
 			"reference model":      "abstract tree with expanded links + reference updater (replace / insert / delete / append / create-parents / transparent link crossing)",
 		},
 		QuickUnits: 50000, ThoroughUnits: 3000000, QuickSecs: 240, ThoroughSecs: 1200,
-		ProbeKeys: []string{"probe.read_back_through_get_and_focus", "probe.walk_transform_across_links", "probe.walk_transform_loader_skips", "probe.walk_transform_visit_once", "probe.chooser_map_prototype", "probe.below_link", "probe.below_two_links", "probe.delete_map", "probe.insert_key", "probe.append", "probe.create_parents", "probe.identity", "probe.expected_error", "probe.typed_transform", "probe.replacement_from_other_implementation", "probe.selector_reused", "probe.float_zero_sign_flipped_below_link", "probe.walk_transform", "probe.walk_transform_selector_matched", "probe.int_backed_segment", "probe.fault_made_transform_fail", "probe.fault_survived", "probe.history_ge_3"},
+		ProbeKeys: []string{"probe.link_system_with_node_reifier", "probe.read_back_through_get_and_focus", "probe.walk_transform_across_links", "probe.walk_transform_loader_skips", "probe.walk_transform_visit_once", "probe.chooser_map_prototype", "probe.below_link", "probe.below_two_links", "probe.delete_map", "probe.insert_key", "probe.append", "probe.create_parents", "probe.identity", "probe.expected_error", "probe.typed_transform", "probe.replacement_from_other_implementation", "probe.selector_reused", "probe.float_zero_sign_flipped_below_link", "probe.walk_transform", "probe.walk_transform_selector_matched", "probe.int_backed_segment", "probe.fault_made_transform_fail", "probe.fault_survived", "probe.history_ge_3"},
 		EventsKey: "events",
 	}
 }
@@ -581,6 +581,49 @@ func (S) RunTape(t *sim.Tape, st *sim.Stats, keepLog bool) *sim.Outcome {
 		return basicnode.Prototype.Any, nil
 	}}
 
+	// In some histories the link system the focused transforms run with has a NodeReifier that changes
+	// what Load returns for map blocks (an ADL-like view with one more entry). A transform rewrites the
+	// BLOCKS on its path: what it stores beside the target is the block's own content, not a reifier's view.
+	reifying := !w.faulty && t.Pct(15, "cfg.reifier")
+	cfgFocus := w.cfg
+	if reifying {
+		ls := w.lsys
+		ls.NodeReifier = func(_ linking.LinkContext, n datamodel.Node, _ *linking.LinkSystem) (datamodel.Node, error) {
+			if n.Kind() != datamodel.Kind_Map {
+				return n, nil
+			}
+			st.Inc("reifier_invoked")
+			nb := basicnode.Prototype.Map.NewBuilder()
+			ma, err := nb.BeginMap(n.Length() + 1)
+			if err != nil {
+				return nil, err
+			}
+			for it := n.MapIterator(); !it.Done(); {
+				k, v, err := it.Next()
+				if err != nil {
+					return nil, err
+				}
+				if err := ma.AssembleKey().AssignNode(k); err != nil {
+					return nil, err
+				}
+				if err := ma.AssembleValue().AssignNode(v); err != nil {
+					return nil, err
+				}
+			}
+			if va, err := ma.AssembleEntry("«seen through the reifier»"); err == nil {
+				va.AssignBool(true)
+			}
+			if err := ma.Finish(); err != nil {
+				return nil, err
+			}
+			return nb.Build(), nil
+		}
+		cc := *w.cfg
+		cc.LinkSystem = ls
+		cfgFocus = &cc
+		st.Inc("probe.link_system_with_node_reifier")
+	}
+
 	ncl := 1 + t.Choice(3, "nclients")
 	type client struct {
 		root    datamodel.Node
@@ -1036,7 +1079,7 @@ func (S) RunTape(t *sim.Tape, st *sim.Stats, keepLog bool) *sim.Outcome {
 						}
 					}
 					pan = safe(func() {
-						res, err = traversal.Progress{Cfg: w.cfg}.FocusedTransform(cl.root, path, func(_ traversal.Progress, prev datamodel.Node) (datamodel.Node, error) {
+						res, err = traversal.Progress{Cfg: cfgFocus}.FocusedTransform(cl.root, path, func(_ traversal.Progress, prev datamodel.Node) (datamodel.Node, error) {
 							s.Yield("callback")
 							var pv *model.V
 							if prev != nil && !prev.IsAbsent() {
